@@ -37,6 +37,9 @@ def expr_tree(e):
         return {"op": e.op.__name__, "lhs": expr_tree(e.lhs), "rhs": expr_tree(e.rhs)}
     if isinstance(e, X.UniExpr):
         return {"op": e.op.__name__, "operand": expr_tree(e.operand)}
+    if type(e).__name__ == "FuncPath":
+        f = getattr(e, "_FuncPath__func", None)
+        return {"func": getattr(f, "__name__", repr(f)), "operand": expr_tree(getattr(e, "_FuncPath__operand", None))}
     if isinstance(e, X.Path2) or isinstance(e, X.Path):
         return {"path": str(e)}
     if isinstance(e, (int, float, str, bool)) or e is None:
@@ -89,10 +92,61 @@ def describe(c):
             maps.append({"__enum__": cur.recast.__name__, **{str(m.value): m.name for m in cur.recast}})
         if isinstance(cur, core.Pointer):
             d["pointer"] = expr_tree(cur.offset)
+        if isinstance(cur, core.Rebuild):
+            d["rebuild"] = expr_tree(cur.func)
         cur = getattr(cur, "subcon", None)
     if maps:
         d["mappings"] = maps
     return d
+
+
+FMT_KIND = {"<B": "u8", ">B": "u8", "<b": "i8", ">b": "i8", "<H": "u16le", ">H": "u16be", "<h": "i16le", ">h": "i16be", "<L": "u32le", ">L": "u32be",
+            "<l": "i32le", ">l": "i32be", "<Q": "u64le", ">Q": "u64be", "<I": "u32le", ">I": "u32be"}
+
+
+def shape(c, depth=0):
+    """The declaration TREE of a construct (classes, nesting, constants, length fields, switch tables, rebuild expressions)."""
+    if depth > 12:
+        return "..."
+    if isinstance(c, core.Compiled):
+        return shape(c.defersubcon, depth)
+    if isinstance(c, core.Renamed):
+        return shape(c.subcon, depth)
+    n = type(c).__name__
+    if isinstance(c, core.Struct):
+        return {"Struct": [[getattr(sc, "name", None), shape(sc, depth + 1)] for sc in c.subcons]}
+    if isinstance(c, core.FormatField):
+        return FMT_KIND.get(c.fmtstr, c.fmtstr)
+    if isinstance(c, core.Const):
+        v = c.value
+        return {"Const": v.hex() if isinstance(v, (bytes, bytearray)) else v}
+    if isinstance(c, core.Prefixed):
+        return {"Prefixed": {"length": shape(c.lengthfield, depth + 1), "includelength": bool(c.includelength), "sub": shape(c.subcon, depth + 1)}}
+    if isinstance(c, core.Switch):
+        return {"Switch": {"key": expr_tree(c.keyfunc), "cases": {str(int(k) if isinstance(k, int) else k): shape(v, depth + 1) for k, v in c.cases.items()},
+                           "default": shape(c.default, depth + 1)}}
+    if isinstance(c, core.GreedyRange):
+        return {"GreedyRange": shape(c.subcon, depth + 1)}
+    if isinstance(c, core.Array):
+        return {"Array": {"count": c.count if isinstance(c.count, int) else expr_tree(c.count), "sub": shape(c.subcon, depth + 1)}}
+    if isinstance(c, core.Rebuild):
+        return {"Rebuild": {"sub": shape(c.subcon, depth + 1), "func": expr_tree(c.func)}}
+    if isinstance(c, core.Lazy):
+        return {"Lazy": shape(c.subcon, depth + 1)}
+    if n == "Enum":
+        return {"Enum": shape(c.subcon, depth + 1), "map": {str(k): int(v) for k, v in c.encmapping.items() if isinstance(k, str)}}
+    if isinstance(c, core.ExprAdapter):
+        return {"ExprAdapter": shape(c.subcon, depth + 1)}
+    if n == "GreedyBytes" or c is core.GreedyBytes:
+        return "GreedyBytes"
+    if isinstance(c, core.Subconstruct) and getattr(c, "subcon", None) is not None:
+        return {n: shape(c.subcon, depth + 1)}
+    return n
+
+
+SHAPES = {
+    "formats.wav:RiffStruct": ("smpl_extract.formats.wav", "RiffStruct"),
+}
 
 
 def fields(struct):
@@ -142,7 +196,13 @@ def main():
                 pass
         except Exception as e:
             errors[key] = repr(e)
-    json.dump({"structs": out, "errors": errors, "construct": C.__version__}, sys.stdout, default=str)
+    shapes = {}
+    for key, (mod, name) in SHAPES.items():
+        try:
+            shapes[key] = shape(getattr(importlib.import_module(mod), name))
+        except Exception as e:
+            errors[key] = repr(e)
+    json.dump({"structs": out, "shapes": shapes, "errors": errors, "construct": C.__version__}, sys.stdout, default=str)
 
 
 if __name__ == "__main__":
